@@ -147,6 +147,11 @@ func optimizeProba(stats *ProbaStats, proba *Proba) int {
 					if oldCost > newCost {
 						proba.Bands[t][b].Probas[c][p] = uint8(newP)
 						numUpdates++
+					} else {
+						// Not worth an update: the header will carry the default,
+						// so the table must hold the default too (an earlier
+						// refresh may have changed this entry).
+						proba.Bands[t][b].Probas[c][p] = uint8(oldP)
 					}
 				}
 			}
